@@ -141,6 +141,12 @@ func Harness_C18_contiguity() {
 		return
 	}
 	vReach("built")
+	// routing is a function of the instant alone: an earlier lookup on the same client, for any
+	// other instant, does not change the answer
+	if vChoice("earlier-lookup", 2) == 1 {
+		t0, _, _ := c18Instant("t0")
+		_, _ = tlc.IndexByDate(t0)
+	}
 	t, ts, tn := c18Instant("t")
 	idx, ierr := tlc.IndexByDate(t)
 	inA := (!aLo || !c18Before(ts, tn, av[0], av[1])) && c18Before(ts, tn, av[2], av[3])
